@@ -464,6 +464,34 @@ Definition schedule (h r : Z) (st : step) : M :=
 
 Definition panic (code : N) : M := fun s => (set_halted s, [OPanic code]).
 
+(* the unlock rule of defaultDoPrevote (repair of F70):
+     for r := round; r > cs.LockedRound; r-- {
+         blockID, ok := cs.Votes.Prevotes(r).TwoThirdsMajority()
+         if ok && !cs.LockedBlock.HashesTo(blockID.Hash) { unlock; break } }
+   is there, among the rounds r, r-1, ..., lr+1, one whose recorded +2/3 prevote majority is for
+   something else than the locked block (nil included)? *)
+Fixpoint later_polka_other (hv : hvs) (lb : block) (lr r : Z) (fuel : nat) : bool :=
+  match fuel with
+  | O => false
+  | S f =>
+    if r <=? lr then false else
+    match o_maj23 (prevotes hv r) with
+    | Some polka =>
+      let h := match polka with Some (h, _) => h | None => 0%N end in
+      let nonnil := match polka with Some _ => true | None => false end in
+      if negb (nonnil && hashes_to (Some lb) h) then true else later_polka_other hv lb lr (r - 1) f
+    | None => later_polka_other hv lb lr (r - 1) f
+    end
+  end.
+
+Definition unlock_known (round : Z) (s : cstate) : cstate :=
+  match cs_lblock s with
+  | Some lb =>
+    if later_polka_other (cs_votes s) lb (cs_lround s) round (S (Z.to_nat (round - cs_lround s)))
+    then set_locked (-1) None None s else s
+  | None => s
+  end.
+
 Section WithEnv.
 Variable E : env.
 
@@ -484,8 +512,8 @@ Definition is_proposal_complete (s : cstate) : bool :=
   | _, _ => false
   end.
 
-(* defaultDoPrevote *)
-Definition do_prevote : M :=
+(* defaultDoPrevote before the repair of finding F70 (kept as the regression witness's subject) *)
+Definition do_prevote_unfixed : M :=
   fun s =>
     match cs_lblock s with
     | Some lb => sign_add_vote PREVOTE (block_id_of lb (cs_lparts s)) s
@@ -497,13 +525,19 @@ Definition do_prevote : M :=
       end
     end.
 
+(* defaultDoPrevote (F70 repaired): first the unlock rule with the polkas held for the rounds
+   round, round-1, ..., LockedRound+1, then: the locked block if (still) locked, else the valid
+   proposal, else nil *)
+Definition do_prevote (round : Z) : M :=
+  fun s => do_prevote_unfixed (unlock_known round s).
+
 (* enterPrevote *)
 Definition enter_prevote (height round : Z) : M :=
   fun s =>
     if negb (cs_height s =? height) || (round <? cs_round s)
        || ((cs_round s =? round) && step_le SPrevote (cs_step s))
     then (s, [])
-    else seq do_prevote (modify (set_rs round SPrevote)) s.
+    else seq (do_prevote round) (modify (set_rs round SPrevote)) s.
 
 (* defaultDecideProposal: the new block is created from the mempool — its identity is not
    known to the model (reuse = None); a valid block is re-proposed with its own identity.
